@@ -678,7 +678,25 @@ func extractWALFileInfo(baseDir string) (map[string]*walFilesInfo, error) {
 		filesInfo[key].walFiles = append(filesInfo[key].walFiles, fileName)
 	}
 
+	// os.ReadDir returns the files sorted by name, which puts "_10.wal" before "_2.wal".
+	// The WAL files of a block have to be replayed in the order in which they were written.
+	for _, info := range filesInfo {
+		sort.SliceStable(info.walFiles, func(i, j int) bool {
+			return walFileIndex(info.walFiles[i]) < walFileIndex(info.walFiles[j])
+		})
+	}
+
 	return filesInfo, nil
+}
+
+// Returns the index <n> of a WAL file named "..._<n>.wal"
+func walFileIndex(fileName string) uint64 {
+	name := strings.TrimSuffix(fileName, ".wal")
+	index, err := strconv.ParseUint(name[strings.LastIndex(name, "_")+1:], 10, 64)
+	if err != nil {
+		return math.MaxUint64
+	}
+	return index
 }
 
 func deleteWalFile(dirPath, fileName string) error {
